@@ -16,12 +16,15 @@ a scheduler choice (`recvWake sid true`), time itself is not modelled.
 Ghost fields (`arrived`, `accepted`, `out`, `gap`, `lateSync`, `lateAsync`, `dead`, `eof`) record the history the theorems talk about;
 no modelled decision reads them.
 
-Modelled as REPAIRED (fixes/F15-…, fixes/F15b-…, fixes/FC03a-…): the `onData` handler drops every chunk once `overflow` is set,
+Modelled as REPAIRED (fixes/F15-…, fixes/F15b-…, fixes/FC03a-…, fixes/FC02a-…): `setReadMode` is a no-op (vacuous `true`) for a closed
+tombstone (FC02a), the `onData` handler drops every chunk once `overflow` is set,
 `setReadMode(…, Async)` takes the ordered-flush path from `Disabled` as well as from `Sync`, and `hasData` is computed from the
 buffer after the append (a zero-length chunk — legal input, UdpEngine delivers empty datagrams — cannot mark an empty buffer readable).
 
 Environment assumptions are *not* built into `step`; they are the decidable predicate `ok` (see `Disciplined`):
-the engine delivers no data / second close for a closed session (C02's contract; EMPTY chunks are legal arrivals), and one application
+the engine delivers no data / second close for a closed session (C02's contract; EMPTY chunks are legal arrivals), the I/O thread is
+ONE thread (it does not deliver the next chunk or a close while it is between reading "Async" under the lock and invoking the data
+callback - `ioPend`; `step` leaves the state unchanged for such a step, `ok` excludes it, so no arrival is silently uncounted), and one application
 thread drives a session's blocking calls (the property's quantifier: "an application thread parked in receive or flushing
 a mode switch") — no `receiveSync` overlaps a `setReadMode(…, Async)` of the same session.
 -/
@@ -120,11 +123,6 @@ def bufData (x : Sess) : Bytes := match x.buf with | some b => b.data | none => 
 
 def inflight (x : Sess) : Bytes := match x.flush with | some (.holding d) => d | _ => []
 
-def pendOf (s : State) (sid : Nat) : Bytes :=
-  match s.ioPend with
-  | some (j, d) => if j = sid then d else []
-  | none => []
-
 def upd (f : Nat → Sess) (i : Nat) (x : Sess) : Nat → Sess := fun j => if j = i then x else f j
 
 def touch (dom : List Nat) (sid : Nat) : List Nat := if sid ∈ dom then dom else sid :: dom
@@ -215,9 +213,15 @@ def bufCount (sess : Nat → Sess) (dom : List Nat) : Nat := (dom.filter (fun j 
 /-- does `setReadMode(sid, m)` take the ordered-flush path? (repaired: from Sync *and* from Disabled) -/
 def flushPath (x : Sess) (m : Mode) : Bool := effMode x != .async && m == .async
 
-/-- mirrors transport_impl.hpp::Transport::setReadMode — step 1 (first critical section) -/
+/-- the session's `receiveBuffers` entry is a closed tombstone (the close handler has run; the tail is for `receiveSync` only) -/
+def tomb (x : Sess) : Bool := match x.buf with | some b => b.closed | none => false
+
+/-- mirrors transport_impl.hpp::Transport::setReadMode — step 1 (first critical section). Repaired (FC02a): a closed tombstone has no
+read mode any more — the call is vacuous: it answers `true`, registers nothing and flushes nothing, so no later switch to Async can
+hand the tail to the data callback after the close callback. -/
 def setModeS (cfg : Cfg) (x : Sess) (m : Mode) : Sess × Option Bool :=
   if !cfg.allowSwitch then (x, some false)
+  else if tomb x then (x, some true)
   else if flushPath x m then ({ x with flush := some .begin }, none)
   else
     let x := { x with mode := some m }
@@ -308,8 +312,8 @@ def run (cfg : Cfg) (s : State) : List Step → State × List Ev
 
 /-- `ok s st`: step `st` respects the engine contract and the one-application-thread-per-session contract in state `s`. -/
 def ok (s : State) : Step → Bool
-  | .ioData sid _ => !(s.sess sid).dead
-  | .ioClose sid => !(s.sess sid).dead
+  | .ioData sid _ => !(s.sess sid).dead && s.ioPend.isNone
+  | .ioClose sid => !(s.sess sid).dead && s.ioPend.isNone
   | .recvEnter sid _ => (s.sess sid).flush.isNone
   | .setMode sid m => (s.sess sid).flush.isNone && (!flushPath (s.sess sid) m || (s.sess sid).parked.isNone)
   | _ => true
@@ -323,5 +327,14 @@ def disciplinedB (cfg : Cfg) : State → List Step → Bool
   | s, st :: rest => ok s st && disciplinedB cfg (step cfg s st).1 rest
 
 def init : State := {}
+
+/-! ## what an observer of the emitted events sees -/
+
+/-- the bytes the events hand to the application for session `sid`: successful receives and data-callback deliveries, in order -/
+def evBytes (sid : Nat) : List Ev → Bytes
+  | [] => []
+  | .recvRet j (.ok bs) :: r => (if j = sid then bs else []) ++ evBytes sid r
+  | .cbData j d :: r => (if j = sid then d else []) ++ evBytes sid r
+  | _ :: r => evBytes sid r
 
 end Iora.SyncRecv
